@@ -1,1 +1,674 @@
 // Kani contract harnesses for /repo/arrow-buffer/src/buffer/immutable.rs (child module: sees private items via super::)
+//
+// C16 (sequential half): no harness in this file calls mem::forget; every Buffer / MutableBuffer / Vec
+// is dropped normally so that CBMC's use-after-free, double-free, invalid-free and out-of-bounds
+// checks are part of each obligation.
+use super::*;
+use std::sync::atomic::{AtomicUsize, Ordering};
+
+/// handle-count model of sharing: the harness knows how many `Buffer` handles onto the same
+/// allocation it created and has not yet dropped.
+fn live(hs: &[&Option<Buffer>]) -> usize {
+    let mut n = 0;
+    for h in hs {
+        if h.is_some() {
+            n += 1;
+        }
+    }
+    n
+}
+
+/// `view` shows exactly `data[off..off+len]` (length compared exactly, contents at one
+/// nondeterministically chosen position, i.e. at every position)
+fn same(view: &[u8], data: &[u8], off: usize, len: usize) -> bool {
+    if view.len() != len {
+        return false;
+    }
+    let i: usize = kani::any();
+    if i < len { view[i] == data[off + i] } else { true }
+}
+
+// Contract (C16): `Buffer::into_mutable` on a buffer over a standard (Rust allocator) region returns
+// Ok  <=>  no other Buffer handle shares the region  /\  the buffer's pointer offset into the region is 0.
+// Ok(m): m holds exactly the bytes the buffer showed (same length) and is writable/growable; writing
+//        through it is unobservable to anybody else because nobody else exists.
+// Err(b): b is the very same view (same bytes, same length, same pointer offset), nothing was copied
+//        or freed. Every surviving clone/slice reads the original bytes afterwards, whatever happened.
+// All handles are dropped in a symbolic order; CBMC checks that the region is freed exactly once.
+// History: create (from_vec | from_slice_ref) ; optional clone ; operand = itself | slice(off) |
+// slice_with_length(0, l) with the parent kept or dropped ; into_mutable ; write + push through Ok ;
+// read through survivors ; drops in symbolic order.
+fn into_mutable_history<const VIA_VEC: bool>() {
+    const N: usize = 8;
+    let data: [u8; N] = kani::any();
+    let via_vec = VIA_VEC;
+    let b = if via_vec { Buffer::from_vec(data.to_vec()) } else { Buffer::from_slice_ref(data) };
+    // optional extra sharer
+    let share: bool = kani::any();
+    let mut keep: Option<Buffer> = if share { Some(b.clone()) } else { None };
+    // operand selection
+    let off: usize = kani::any();
+    let len: usize = kani::any();
+    kani::assume(off <= N && len <= N - off);
+    let mode: u8 = kani::any();
+    kani::assume(mode < 3);
+    let keep_parent: bool = kani::any();
+    let (operand, mut parent): (Buffer, Option<Buffer>) = match mode {
+        0 => {
+            kani::assume(off == 0 && len == N);
+            (b, None)
+        }
+        1 => {
+            kani::assume(len == N - off);
+            let s = b.slice(off);
+            if keep_parent { (s, Some(b)) } else { drop(b); (s, None) }
+        }
+        _ => {
+            let s = b.slice_with_length(off, len);
+            if keep_parent { (s, Some(b)) } else { drop(b); (s, None) }
+        }
+    };
+    let others = live(&[&keep, &parent]);
+    assert!(operand.strong_count() == others + 1); // the model agrees with the reference count
+    assert!(operand.ptr_offset() == off && operand.len() == len);
+    let expect_ok = others == 0 && off == 0;
+
+    let w: u8 = kani::any();
+    let wi: usize = kani::any();
+    match operand.into_mutable() {
+        Ok(mut m) => {
+            assert!(expect_ok);
+            assert!(m.len() == len && m.capacity() >= len);
+            assert!(same(m.as_slice(), &data, 0, len));
+            // mutate uniquely owned memory: overwrite one byte, append one byte (may reallocate)
+            if len > 0 {
+                kani::assume(wi < len);
+                m.as_slice_mut()[wi] = w;
+            }
+            m.push(w);
+            assert!(m.len() == len + 1 && m.as_slice()[len] == w);
+            if len > 0 {
+                assert!(m.as_slice()[wi] == w);
+            }
+            kani::cover!(len == N);
+            kani::cover!(len < N);
+            let back: bool = kani::any();
+            if back {
+                let b2: Buffer = m.into();
+                assert!(b2.len() == len + 1 && b2.as_slice()[len] == w);
+            }
+        }
+        Err(orig) => {
+            assert!(!expect_ok);
+            assert!(orig.len() == len && orig.ptr_offset() == off);
+            assert!(same(orig.as_slice(), &data, off, len));
+            assert!(orig.strong_count() == others + 1);
+            kani::cover!(others == 0 && off > 0); // declined only because of the offset
+            kani::cover!(others > 0 && off == 0); // declined only because shared
+            // drop order: returned buffer first or last
+            if kani::any() {
+                drop(orig);
+            } else {
+                let k = keep.take();
+                if let Some(k) = &k {
+                    assert!(same(k.as_slice(), &data, 0, N));
+                }
+                drop(k);
+                let p = parent.take();
+                drop(p);
+                assert!(same(orig.as_slice(), &data, off, len));
+                drop(orig);
+            }
+        }
+    }
+    // survivors still read the original bytes
+    if let Some(k) = &keep {
+        assert!(same(k.as_slice(), &data, 0, N) && k.ptr_offset() == 0);
+    }
+    if let Some(p) = &parent {
+        assert!(same(p.as_slice(), &data, 0, N));
+    }
+    if kani::any() {
+        drop(keep);
+        drop(parent);
+    } else {
+        drop(parent);
+        drop(keep);
+    }
+}
+
+// @unit name=into_mutable_history_vec props=C16 kind=bounded bound=8_bytes_history<=6_ops fns=Buffer::into_mutable,MutableBuffer::from_bytes,Buffer::from_vec,Buffer::slice,Buffer::slice_with_length,Buffer::clone,Bytes::drop tier=quick mem=3 timeout=300
+#[kani::proof]
+#[kani::unwind(10)]
+fn into_mutable_history_vec() {
+    into_mutable_history::<true>()
+}
+// @unit name=into_mutable_history_slice props=C16 kind=bounded bound=8_bytes_history<=6_ops fns=Buffer::into_mutable,MutableBuffer::from_bytes,Buffer::from_slice_ref,Buffer::slice,Buffer::slice_with_length,Buffer::clone,Bytes::drop tier=quick mem=3 timeout=300
+#[kani::proof]
+#[kani::unwind(10)]
+fn into_mutable_history_slice() {
+    into_mutable_history::<false>()
+}
+
+/// raw bytes of a slice of plain-old-data values (spec side: native layout of `[S]`)
+fn bytes_of<S>(s: &[S]) -> &[u8] {
+    unsafe { std::slice::from_raw_parts(s.as_ptr() as *const u8, std::mem::size_of_val(s)) }
+}
+
+// Contract (C16): `Buffer::into_vec::<T>` on a buffer whose region was allocated for a `Vec<S>` of
+// capacity CAP returns Ok <=> no other handle shares the region /\ pointer offset 0 /\ the region's
+// layout is exactly the layout of a `Vec<T>` (align_of T = align_of S and CAP*size_of S divisible
+// by size_of T). Ok(v): v.len() = visible bytes / size_of T, v.capacity()*size_of T = region size,
+// v's bytes are the buffer's bytes, v may be written, grown and dropped (freed once, with a layout
+// the allocator accepts). Err(b): b is the same view; survivors read the original bytes.
+fn into_vec_history<S, T, const LEN: usize, const CAP: usize>()
+where
+    S: ArrowNativeType + kani::Arbitrary,
+    T: ArrowNativeType,
+{
+    let ssz = std::mem::size_of::<S>();
+    let tsz = std::mem::size_of::<T>();
+    let data: [S; LEN] = kani::any();
+    let mut v: Vec<S> = Vec::with_capacity(CAP);
+    v.extend_from_slice(&data);
+    let region = v.capacity() * ssz;
+    let raw = bytes_of(&data);
+    let n = LEN * ssz;
+    let b = Buffer::from_vec(v);
+    assert!(b.len() == n && b.capacity() == region && b.ptr_offset() == 0);
+    let share: bool = kani::any();
+    let keep: Option<Buffer> = if share { Some(b.clone()) } else { None };
+    let off: usize = kani::any();
+    let len: usize = kani::any();
+    kani::assume(off <= n && len <= n - off);
+    let keep_parent: bool = kani::any();
+    let (operand, parent) = if kani::any() {
+        kani::assume(off == 0 && len == n);
+        (b, None)
+    } else {
+        let s = b.slice_with_length(off, len);
+        if keep_parent { (s, Some(b)) } else { drop(b); (s, None) }
+    };
+    let others = live(&[&keep, &parent]);
+    let layout_ok = std::mem::align_of::<S>() == std::mem::align_of::<T>() && region % tsz == 0;
+    let expect_ok = others == 0 && off == 0 && layout_ok;
+    match operand.into_vec::<T>() {
+        Ok(mut out) => {
+            assert!(expect_ok);
+            assert!(out.len() == len / tsz);
+            assert!(out.capacity() * tsz == region);
+            assert!(same(bytes_of(&out), raw, 0, (len / tsz) * tsz));
+            // uniquely owned: write, grow (reallocates with the Vec's layout), drop
+            out.push(T::usize_as(7));
+            assert!(out.len() == len / tsz + 1);
+            out[0] = T::usize_as(9);
+        }
+        Err(orig) => {
+            assert!(!expect_ok);
+            assert!(orig.ptr_offset() == off && orig.strong_count() == others + 1);
+            assert!(same(orig.as_slice(), raw, off, len));
+            if kani::any() {
+                drop(orig);
+            }
+        }
+    }
+    if let Some(k) = &keep {
+        assert!(same(k.as_slice(), raw, 0, n));
+    }
+    if let Some(p) = &parent {
+        assert!(same(p.as_slice(), raw, 0, n));
+    }
+    // reached on the Ok path iff the layouts agree, otherwise on the "declined for layout only" path
+    kani::cover!(others == 0 && off == 0 && len == n);
+    kani::cover!(others == 0 && off == 0 && len < n);
+    kani::cover!(others > 0 && off == 0); // declined: shared
+    kani::cover!(others == 0 && off > 0); // declined: offset
+    if kani::any() {
+        drop(keep);
+        drop(parent);
+    }
+}
+
+macro_rules! into_vec_unit {
+    ($name:ident, $s:ty, $t:ty, $len:expr, $cap:expr) => {
+        #[kani::proof]
+        #[kani::unwind(10)]
+        fn $name() {
+            into_vec_history::<$s, $t, $len, $cap>()
+        }
+    };
+}
+// @unit name=into_vec_u8_u8 props=C16 kind=bounded bound=Vec<u8>_len6_cap8_history<=5_ops fns=Buffer::into_vec,Buffer::from_vec,MutableBuffer::from tier=quick mem=3 timeout=300
+into_vec_unit!(into_vec_u8_u8, u8, u8, 6, 8);
+// @unit name=into_vec_i32_i32 props=C16 kind=bounded bound=Vec<i32>_len2_cap3_history<=5_ops fns=Buffer::into_vec,Buffer::from_vec,MutableBuffer::from tier=quick mem=3 timeout=300
+into_vec_unit!(into_vec_i32_i32, i32, i32, 2, 3);
+// @unit name=into_vec_i32_u32 props=C16 kind=bounded bound=Vec<i32>_len2_cap2_history<=5_ops fns=Buffer::into_vec,Buffer::from_vec tier=quick mem=3 timeout=300
+into_vec_unit!(into_vec_i32_u32, i32, u32, 2, 2);
+// @unit name=into_vec_i32_i64 props=C16 kind=bounded bound=Vec<i32>_len2_cap2_history<=5_ops fns=Buffer::into_vec,Buffer::from_vec tier=quick mem=3 timeout=300
+into_vec_unit!(into_vec_i32_i64, i32, i64, 2, 2);
+// @unit name=into_vec_i64_i32 props=C16 kind=bounded bound=Vec<i64>_len1_cap1_history<=5_ops fns=Buffer::into_vec,Buffer::from_vec tier=quick mem=3 timeout=300
+into_vec_unit!(into_vec_i64_i32, i64, i32, 1, 1);
+// size-divisibility condition: IntervalDayTime has align 4, size 8
+// @unit name=into_vec_i32_daytime_cap3 props=C16 kind=bounded bound=Vec<i32>_len2_cap3_history<=5_ops fns=Buffer::into_vec,Buffer::from_vec tier=quick mem=3 timeout=300
+into_vec_unit!(into_vec_i32_daytime_cap3, i32, crate::IntervalDayTime, 2, 3);
+// @unit name=into_vec_i32_daytime_cap4 props=C16 kind=bounded bound=Vec<i32>_len2_cap4_history<=5_ops fns=Buffer::into_vec,Buffer::from_vec tier=quick mem=3 timeout=300
+into_vec_unit!(into_vec_i32_daytime_cap4, i32, crate::IntervalDayTime, 2, 4);
+
+// Contract (C16): a buffer built by `MutableBuffer` (from_slice_ref: 128-byte aligned region on
+// x86_64) never converts into a `Vec<u8>`/`Vec<i32>` (layout mismatch: the Vec would free it with
+// the wrong alignment) — into_vec declines and gives the same view back, even when unique.
+// @unit name=into_vec_from_slice_ref_declines props=C16 kind=bounded bound=8_bytes fns=Buffer::into_vec,Buffer::from_slice_ref tier=quick mem=2 timeout=200
+#[kani::proof]
+#[kani::unwind(10)]
+fn into_vec_from_slice_ref_declines() {
+    let data: [u8; 8] = kani::any();
+    let b = Buffer::from_slice_ref(data);
+    let r = if kani::any() {
+        b.into_vec::<u8>().map(|_| ())
+    } else {
+        b.into_vec::<i32>().map(|_| ())
+    };
+    match r {
+        Ok(()) => assert!(false),
+        Err(orig) => {
+            assert!(same(orig.as_slice(), &data, 0, 8) && orig.ptr_offset() == 0);
+            kani::cover!(true);
+        }
+    }
+}
+
+// Contract (C16/C01): read-only views. For a buffer over 8 symbolic bytes and every in-range
+// (offset, length): `slice_with_length` and `slice` show exactly the addressed sub-range of the
+// original bytes, report len / is_empty / ptr_offset / as_ptr accordingly, never change what the
+// parent shows (frame) and do not copy (same region: strong_count grows, data_ptr equal); the views
+// stay readable after the parent is dropped. In-range calls never panic (not a may-reject harness).
+// @unit name=buffer_slice_views props=C16,C01 kind=bounded bound=8_bytes fns=Buffer::from_slice_ref,Buffer::slice,Buffer::slice_with_length,Buffer::as_slice,Buffer::len,Buffer::is_empty,Buffer::ptr_offset,Buffer::as_ptr,Buffer::data_ptr,Buffer::strong_count,Buffer::capacity,Buffer::deref tier=quick mem=3 timeout=300
+#[kani::proof]
+#[kani::unwind(10)]
+fn buffer_slice_views() {
+    const N: usize = 8;
+    let data: [u8; N] = kani::any();
+    let b = Buffer::from_slice_ref(data);
+    assert!(b.len() == N && !b.is_empty() && b.ptr_offset() == 0 && b.strong_count() == 1);
+    assert!(b.capacity() == 64); // MutableBuffer rounds 8 up to 64
+    assert!(same(b.as_slice(), &data, 0, N) && same(&b, &data, 0, N) && same(b.as_ref(), &data, 0, N));
+    let (o1, l1): (usize, usize) = (kani::any(), kani::any());
+    kani::assume(o1 <= N && l1 <= N - o1);
+    let s = b.slice_with_length(o1, l1);
+    assert!(s.len() == l1 && s.is_empty() == (l1 == 0) && s.ptr_offset() == o1);
+    assert!(same(s.as_slice(), &data, o1, l1));
+    assert!(s.data_ptr() == b.data_ptr() && b.strong_count() == 2);
+    assert!(s.as_ptr() == unsafe { b.as_ptr().add(o1) });
+    let o2: usize = kani::any();
+    kani::assume(o2 <= l1);
+    let t = s.slice(o2);
+    assert!(t.len() == l1 - o2 && t.ptr_offset() == o1 + o2 && same(t.as_slice(), &data, o1 + o2, l1 - o2));
+    // frame: nothing else moved
+    assert!(same(s.as_slice(), &data, o1, l1) && same(b.as_slice(), &data, 0, N) && b.strong_count() == 3);
+    kani::cover!(l1 == 0);
+    kani::cover!(o1 > 0 && o2 > 0 && l1 - o2 > 0);
+    if kani::any() {
+        drop(b);
+        drop(s);
+        assert!(same(t.as_slice(), &data, o1 + o2, l1 - o2) && t.strong_count() == 1);
+    }
+}
+
+// Contract (C16/C02): `clone` is a second handle on the same bytes; `advance(o)` on the clone moves
+// only the clone; `ptr_eq` <=> same pointer and length; `==` <=> same byte sequence, wherever the two
+// views sit in the region.
+// @unit name=buffer_clone_advance_eq props=C16,C02 kind=bounded bound=8_bytes fns=Buffer::clone,Buffer::advance,Buffer::ptr_eq,Buffer::eq tier=quick mem=3 timeout=300
+#[kani::proof]
+#[kani::unwind(10)]
+fn buffer_clone_advance_eq() {
+    const N: usize = 8;
+    let data: [u8; N] = kani::any();
+    let b = Buffer::from_vec(data.to_vec());
+    let mut u = b.clone();
+    assert!(u.ptr_eq(&b) && u == b && b.strong_count() == 2);
+    let o3: usize = kani::any();
+    kani::assume(o3 <= N);
+    u.advance(o3);
+    assert!(u.len() == N - o3 && u.ptr_offset() == o3 && same(u.as_slice(), &data, o3, N - o3));
+    assert!(u.ptr_eq(&b) == (o3 == 0));
+    assert!(same(b.as_slice(), &data, 0, N) && b.ptr_offset() == 0);
+    // content equality is independent of the position in the region (2-byte windows)
+    let (p, q): (usize, usize) = (kani::any(), kani::any());
+    kani::assume(p < N - 1 && q < N - 1);
+    let (x, y) = (b.slice_with_length(p, 2), b.slice_with_length(q, 2));
+    assert!((x == y) == (data[p] == data[q] && data[p + 1] == data[q + 1]));
+    assert!((x.ptr_eq(&y)) == (p == q));
+    assert!(!(x == b.slice_with_length(p, 1))); // different lengths are never equal
+    kani::cover!(o3 == N);
+    kani::cover!(p != q && x == y);
+    if kani::any() {
+        drop(b);
+        assert!(same(u.as_slice(), &data, o3, N - o3));
+    }
+}
+
+// Contract (C01/C09): `slice`, `slice_with_length`, `advance` and byte-aligned `bit_slice` called
+// with ARBITRARY usize arguments (including values whose sum overflows) either panic (= reject) or
+// return a view that lies inside the parent: returning implies offset + length <= parent length
+// (computed without wrap-around), and the view shows the addressed bytes.
+// @unit name=buffer_slice_rejects props=C01,C09 kind=bounded bound=8_bytes fns=Buffer::slice,Buffer::slice_with_length,Buffer::advance,Buffer::bit_slice mayreject=1 tier=quick mem=3 timeout=300
+#[kani::proof]
+#[kani::unwind(10)]
+fn buffer_slice_rejects() {
+    const N: usize = 8;
+    let data: [u8; N] = kani::any();
+    let b = Buffer::from_slice_ref(data);
+    let (o, l): (usize, usize) = (kani::any(), kani::any());
+    let which: u8 = kani::any();
+    match which {
+        0 => {
+            let s = b.slice(o);
+            assert!(o <= N && same(s.as_slice(), &data, o, N - o));
+            kani::cover!(o == N);
+        }
+        1 => {
+            let s = b.slice_with_length(o, l);
+            assert!(o as u128 + l as u128 <= N as u128);
+            assert!(same(s.as_slice(), &data, o, l));
+            kani::cover!(o + l == N && l > 0);
+        }
+        2 => {
+            let mut s = b.clone();
+            s.advance(o);
+            assert!(o <= N && same(s.as_slice(), &data, o, N - o));
+            kani::cover!(o == 1);
+        }
+        _ => {
+            // byte-aligned bit offset 8 (concrete: the unaligned path allocates, see the grid units), bit length l
+            let s = b.bit_slice(8, l);
+            assert!(l <= 8 * (N - 1));
+            let nbytes = l / 8 + (l % 8 != 0) as usize;
+            assert!(same(s.as_slice(), &data, 1, nbytes));
+            kani::cover!(l % 8 == 3);
+            kani::cover!(l == 56);
+        }
+    }
+}
+
+// Contract (C01): `typed_data::<T>` on a byte window [off, off+len) of a region allocated for
+// `[T; 3]` returns (does not panic) exactly when the window is empty, or T-aligned and a whole number
+// of T, and then yields exactly the addressed elements, in native byte order.
+//   typed_data_rejects_*: arbitrary in-range window, may-reject reading: returns => aligned /\ whole /\ elements.
+//   typed_data_accepts_*: aligned whole windows never panic and read the elements (not may-reject).
+fn typed_data_window<T: ArrowNativeType + kani::Arbitrary + PartialEq, const ALIGNED_ONLY: bool>() {
+    let sz = std::mem::size_of::<T>();
+    let data: [T; 3] = kani::any();
+    let b = Buffer::from_vec(data.to_vec());
+    let (off, len): (usize, usize) = (kani::any(), kani::any());
+    kani::assume(off <= 3 * sz && len <= 3 * sz - off);
+    if ALIGNED_ONLY {
+        kani::assume(len == 0 || (off % sz == 0 && len % sz == 0));
+    }
+    let w = b.slice_with_length(off, len);
+    let t: &[T] = w.typed_data::<T>();
+    assert!(len == 0 || (off % sz == 0 && len % sz == 0));
+    assert!(t.len() == len / sz);
+    let i: usize = kani::any();
+    if i < len / sz {
+        assert!(t[i] == data[off / sz + i]);
+    }
+    kani::cover!(len / sz == 3);
+    kani::cover!(off / sz == 1 && len / sz == 2);
+    kani::cover!(len == 0 && off % sz == 1);
+}
+// @unit name=typed_data_rejects_i32 props=C01,C09 kind=bounded bound=3_elements fns=Buffer::typed_data mayreject=1 tier=quick mem=2 timeout=200
+#[kani::proof]
+#[kani::unwind(10)]
+fn typed_data_rejects_i32() {
+    typed_data_window::<i32, false>()
+}
+// @unit name=typed_data_accepts_i32 props=C01 kind=bounded bound=3_elements fns=Buffer::typed_data tier=quick mem=2 timeout=200
+#[kani::proof]
+#[kani::unwind(10)]
+fn typed_data_accepts_i32() {
+    typed_data_window::<i32, true>()
+}
+// @unit name=typed_data_rejects_u16 props=C01,C09 kind=bounded bound=3_elements fns=Buffer::typed_data mayreject=1 tier=quick mem=2 timeout=200
+#[kani::proof]
+#[kani::unwind(10)]
+fn typed_data_rejects_u16() {
+    typed_data_window::<u16, false>()
+}
+// @unit name=typed_data_accepts_i64 props=C01 kind=bounded bound=3_elements fns=Buffer::typed_data tier=quick mem=2 timeout=200
+#[kani::proof]
+#[kani::unwind(10)]
+fn typed_data_accepts_i64() {
+    typed_data_window::<i64, true>()
+}
+
+// Contract (C01/C02): `bit_slice(OFF, LEN)` (bit units) of a 16-byte buffer returns a buffer of
+// ceil(LEN/8) bytes whose bit i equals bit OFF+i of the source for every i < LEN; the source is
+// unchanged; byte-aligned offsets share the region (no copy), unaligned offsets produce an
+// independent region that stays valid after the source is dropped. One harness per (OFF, LEN) grid
+// point (grid rule: the unaligned path allocates), contents symbolic.
+fn bit_slice_point<const OFF: usize, const LEN: usize>() {
+    const N: usize = 16;
+    let data: [u8; N] = kani::any();
+    let b = Buffer::from_slice_ref(data);
+    let s = b.bit_slice(OFF, LEN);
+    assert!(s.len() == (LEN + 7) / 8);
+    let i: usize = kani::any();
+    kani::assume(i < LEN);
+    let src = (data[(OFF + i) / 8] >> ((OFF + i) % 8)) & 1;
+    assert!((s.as_slice()[i / 8] >> (i % 8)) & 1 == src);
+    assert!(same(b.as_slice(), &data, 0, N));
+    assert!((s.data_ptr() == b.data_ptr()) == (OFF % 8 == 0));
+    if OFF % 8 == 0 {
+        assert!(s.ptr_offset() == OFF / 8 && b.strong_count() == 2);
+    } else {
+        assert!(s.ptr_offset() == 0 && b.strong_count() == 1);
+    }
+    drop(b);
+    assert!((s.as_slice()[i / 8] >> (i % 8)) & 1 == src);
+    kani::cover!(src == 1);
+    kani::cover!(i == LEN - 1);
+}
+macro_rules! bit_slice_unit {
+    ($name:ident, $off:expr, $len:expr) => {
+        #[kani::proof]
+        #[kani::unwind(20)]
+        fn $name() {
+            bit_slice_point::<$off, $len>()
+        }
+    };
+}
+// @unit name=bit_slice_0_16 props=C01,C02 kind=bounded bound=16_bytes_off0_len16 fns=Buffer::bit_slice tier=quick mem=2 timeout=200
+bit_slice_unit!(bit_slice_0_16, 0, 16);
+// @unit name=bit_slice_8_9 props=C01,C02 kind=bounded bound=16_bytes_off8_len9 fns=Buffer::bit_slice tier=quick mem=2 timeout=200
+bit_slice_unit!(bit_slice_8_9, 8, 9);
+// @unit name=bit_slice_3_5 props=C01,C02 kind=bounded bound=16_bytes_off3_len5 fns=Buffer::bit_slice tier=quick mem=2 timeout=200
+bit_slice_unit!(bit_slice_3_5, 3, 5);
+// @unit name=bit_slice_3_64 props=C01,C02 kind=bounded bound=16_bytes_off3_len64 fns=Buffer::bit_slice tier=quick mem=2 timeout=200
+bit_slice_unit!(bit_slice_3_64, 3, 64);
+// @unit name=bit_slice_5_70 props=C01,C02 kind=bounded bound=16_bytes_off5_len70 fns=Buffer::bit_slice tier=quick mem=2 timeout=200
+bit_slice_unit!(bit_slice_5_70, 5, 70);
+// @unit name=bit_slice_7_121 props=C01,C02 kind=bounded bound=16_bytes_off7_len121 fns=Buffer::bit_slice tier=quick mem=2 timeout=200
+bit_slice_unit!(bit_slice_7_121, 7, 121);
+// @unit name=bit_slice_63_65 props=C01,C02 kind=bounded bound=16_bytes_off63_len65 fns=Buffer::bit_slice tier=quick mem=2 timeout=200
+bit_slice_unit!(bit_slice_63_65, 63, 65);
+
+// Contract (C16): `shrink_to_fit` never changes what the buffer (or any other handle) shows and
+// never frees memory that is still visible. Unique handle: afterwards capacity = ptr_offset + len
+// (0 for an empty view), reallocation preserved the visible bytes, ptr_offset is preserved (0 if
+// empty); shared region: complete no-op (same pointers, same capacity). Drops free exactly once.
+// One harness per concrete (offset, len) window of an 8-byte buffer in a 64-byte region (grid rule:
+// realloc size), contents and sharing symbolic.
+fn shrink_to_fit_point<const OFF: usize, const LEN: usize>() {
+    const N: usize = 8;
+    let data: [u8; N] = kani::any();
+    let b = Buffer::from_slice_ref(data); // capacity 64, len 8
+    let (off, len) = (OFF, LEN);
+    let mut s = b.slice_with_length(off, len);
+    let shared: bool = kani::any();
+    let keep = if shared { Some(b) } else { drop(b); None };
+    let before_ptr = s.as_ptr();
+    s.shrink_to_fit();
+    assert!(s.len() == len && same(s.as_slice(), &data, off, len));
+    if shared {
+        assert!(s.capacity() == 64 && s.as_ptr() == before_ptr && s.ptr_offset() == off);
+        let k = keep.as_ref().unwrap();
+        assert!(same(k.as_slice(), &data, 0, N) && k.capacity() == 64);
+    } else if len == 0 {
+        assert!(s.capacity() == 0 && s.ptr_offset() == 0);
+    } else {
+        assert!(s.capacity() == off + len && s.ptr_offset() == off);
+    }
+    kani::cover!(shared);
+    kani::cover!(!shared);
+    // a second shrink is idempotent; then drop in either order
+    s.shrink_to_fit();
+    assert!(same(s.as_slice(), &data, off, len));
+    if kani::any() {
+        drop(s);
+        if let Some(k) = &keep {
+            assert!(same(k.as_slice(), &data, 0, N));
+        }
+    } else {
+        drop(keep);
+        assert!(same(s.as_slice(), &data, off, len));
+    }
+}
+macro_rules! shrink_unit {
+    ($name:ident, $off:expr, $len:expr) => {
+        #[kani::proof]
+        #[kani::unwind(10)]
+        fn $name() {
+            shrink_to_fit_point::<$off, $len>()
+        }
+    };
+}
+// @unit name=shrink_to_fit_0_8 props=C16 kind=bounded bound=window_0_8_of_8_bytes_cap64 fns=Buffer::shrink_to_fit,Bytes::try_realloc,Bytes::drop tier=quick mem=2 timeout=200
+shrink_unit!(shrink_to_fit_0_8, 0, 8);
+// @unit name=shrink_to_fit_0_3 props=C16 kind=bounded bound=window_0_3_of_8_bytes_cap64 fns=Buffer::shrink_to_fit,Bytes::try_realloc,Bytes::drop tier=quick mem=2 timeout=200
+shrink_unit!(shrink_to_fit_0_3, 0, 3);
+// @unit name=shrink_to_fit_2_3 props=C16 kind=bounded bound=window_2_3_of_8_bytes_cap64 fns=Buffer::shrink_to_fit,Bytes::try_realloc,Bytes::drop tier=quick mem=2 timeout=200
+shrink_unit!(shrink_to_fit_2_3, 2, 3);
+// @unit name=shrink_to_fit_0_0 props=C16 kind=bounded bound=window_0_0_of_8_bytes_cap64 fns=Buffer::shrink_to_fit,Bytes::try_realloc,Bytes::drop tier=quick mem=2 timeout=200
+shrink_unit!(shrink_to_fit_0_0, 0, 0);
+// @unit name=shrink_to_fit_8_0 props=C16 kind=bounded bound=window_8_0_of_8_bytes_cap64 fns=Buffer::shrink_to_fit,Bytes::try_realloc,Bytes::drop tier=quick mem=2 timeout=200
+shrink_unit!(shrink_to_fit_8_0, 8, 0);
+
+static RELEASED: AtomicUsize = AtomicUsize::new(0);
+/// external owner of a memory region; its Drop is the "release callback" and counts invocations
+struct Owner {
+    bytes: [u8; 4],
+}
+impl Drop for Owner {
+    fn drop(&mut self) {
+        RELEASED.fetch_add(1, Ordering::SeqCst);
+    }
+}
+fn released() -> usize {
+    RELEASED.load(Ordering::SeqCst)
+}
+
+/// every live handle shows its window of the original bytes; the owner is unreleased iff any is alive
+fn check_handles(hs: [&Option<(Buffer, usize)>; 4], snap: &[u8; 4]) -> usize {
+    let mut alive = 0;
+    for e in hs {
+        if let Some((b, o)) = e {
+            alive += 1;
+            assert!(b.ptr_offset() == *o && same(b.as_slice(), snap, *o, b.len()));
+        }
+    }
+    assert!(released() == if alive > 0 { 0 } else { 1 });
+    alive
+}
+
+// Contract (C16): a buffer created by `from_custom_allocation(ptr, 4, Arc<owner>)`, then up to three
+// derived handles (optional clone; optional slice(k) of the first or of the clone; optional
+// slice_with_length(k, l) of the first or of the slice — all choices and k, l symbolic), then drops
+// of the up to four handles in a symbolic order: while at least one handle is alive the owner has
+// not been released (counter 0) and every live handle still shows its window of the original
+// bytes; after the last handle is dropped the owner has been released exactly once (counter 1).
+// @unit name=custom_allocation_history props=C16 kind=bounded bound=4_bytes_<=3_derivations_then_<=4_drops_any_order fns=Buffer::from_custom_allocation,Buffer::build_with_arguments,Buffer::clone,Buffer::slice,Buffer::slice_with_length,Bytes::drop tier=quick mem=4 timeout=400
+#[kani::proof]
+#[kani::unwind(7)]
+fn custom_allocation_history() {
+    let owner = std::sync::Arc::new(Owner { bytes: kani::any() });
+    let snap = owner.bytes;
+    let ptr = NonNull::new(owner.bytes.as_ptr() as *mut u8).unwrap();
+    let first = unsafe { Buffer::from_custom_allocation(ptr, 4, owner) };
+    assert!(first.len() == 4 && first.capacity() == 4 && first.ptr_offset() == 0);
+    let mut a = Some((first, 0usize));
+    let mut c: Option<(Buffer, usize)> = None;
+    let mut s: Option<(Buffer, usize)> = None;
+    let mut t: Option<(Buffer, usize)> = None;
+    if kani::any() {
+        c = Some((a.as_ref().unwrap().0.clone(), 0));
+    }
+    if kani::any() {
+        let src = if c.is_some() && kani::any() { &c } else { &a };
+        let (b, o) = src.as_ref().unwrap();
+        let k: usize = kani::any();
+        kani::assume(k <= b.len());
+        s = Some((b.slice(k), *o + k));
+    }
+    if kani::any() {
+        let src = if s.is_some() && kani::any() { &s } else { &a };
+        let (b, o) = src.as_ref().unwrap();
+        let (k, l): (usize, usize) = (kani::any(), kani::any());
+        kani::assume(k <= b.len() && l <= b.len() - k);
+        t = Some((b.slice_with_length(k, l), *o + k));
+    }
+    let n0 = check_handles([&a, &c, &s, &t], &snap);
+    kani::cover!(n0 == 4);
+    kani::cover!(n0 == 1);
+    let mut last_alive = n0;
+    for _ in 0..4 {
+        let d: u8 = kani::any();
+        let victim = match d {
+            0 => a.take(),
+            1 => c.take(),
+            2 => s.take(),
+            _ => t.take(),
+        };
+        kani::assume(victim.is_some());
+        drop(victim); // the only drop site inside the loop
+        last_alive = check_handles([&a, &c, &s, &t], &snap);
+        if last_alive == 0 {
+            break;
+        }
+    }
+    assert!(last_alive == 0 && released() == 1);
+    kani::cover!(n0 == 4 && released() == 1);
+}
+
+// Contract (C16): a uniquely held, offset-0 buffer over an EXTERNALLY owned region is never turned
+// into a MutableBuffer or Vec (those would later free/reallocate with the Rust allocator memory it
+// does not own): into_mutable / into_vec decline, return the same view, the owner is not released
+// by the attempt and is released exactly once when the returned buffer is dropped.
+// @unit name=custom_allocation_never_mutable props=C16 kind=bounded bound=4_bytes fns=Buffer::into_mutable,Buffer::into_vec,MutableBuffer::from_bytes,Buffer::from_custom_allocation tier=quick mem=2 timeout=200
+#[kani::proof]
+#[kani::unwind(7)]
+fn custom_allocation_never_mutable() {
+    let owner = std::sync::Arc::new(Owner { bytes: kani::any() });
+    let snap = owner.bytes;
+    let ptr = NonNull::new(owner.bytes.as_ptr() as *mut u8).unwrap();
+    let b = unsafe { Buffer::from_custom_allocation(ptr, 4, owner) };
+    let r: Result<(), Buffer> = if kani::any() {
+        b.into_mutable().map(|_| ())
+    } else {
+        b.into_vec::<u8>().map(|_| ())
+    };
+    let orig = match r {
+        Ok(()) => {
+            assert!(false);
+            return;
+        }
+        Err(orig) => orig,
+    };
+    assert!(released() == 0);
+    assert!(orig.ptr_offset() == 0 && orig.strong_count() == 1 && same(orig.as_slice(), &snap, 0, 4));
+    let mut again = orig;
+    again.shrink_to_fit(); // no-op on external memory
+    assert!(again.capacity() == 4 && same(again.as_slice(), &snap, 0, 4) && released() == 0);
+    drop(again);
+    assert!(released() == 1);
+    kani::cover!(true);
+}
